@@ -365,6 +365,78 @@ def rule_r3_custom_route(chk, db):
         chk.fail("R3", "custom-route", root.loc(), "custom-route arm does not build the response from the route's S3Response")
 
 
+_DECL_CACHE = {}
+
+
+def _error_decl_mode(db, b, t):
+    """'decl' / 'no_decl' / None: which body setter serialize_error reaches for the constant selector this call passes"""
+    se = db.body("s3s::ops::serialize_error")
+    if se is None or len(t["args"]) < 2:
+        return None
+    # value of the selector at the call: a bool literal or a unit enum variant
+    c = flow.const_of(b, t["args"][1])
+    val = None
+    if c is not None and c.get("c") == "int":
+        val = ("int", str(c.get("v")))
+    else:
+        p = flow.op_place(t["args"][1])
+        df = flow.single_def(b, p["l"]) if p is not None and not p["proj"] else None
+        for _ in range(4):
+            if df is not None and df["kind"] == "assign" and df["rv"]["k"] == "use" and flow.op_place(df["rv"]["ops"][0]) is not None:
+                q = flow.op_place(df["rv"]["ops"][0])
+                df = flow.single_def(b, q["l"]) if not q["proj"] else None
+            else:
+                break
+        if df is not None and df["kind"] == "assign" and df["rv"]["k"] == "agg" and df["rv"].get("agg") == "adt":
+            val = ("variant", df["rv"].get("variant"))
+    if val is None:
+        return None
+    key = (db.dir, val)
+    if key in _DECL_CACHE:
+        return _DECL_CACHE[key]
+    setters = {}
+    for bi, ct in se.calls():
+        d = callee_def(ct)
+        if d == SER + "set_xml_body_no_decl":
+            setters[bi] = "no_decl"
+        elif d == SER + "set_xml_body":
+            setters[bi] = "decl"
+    out = None
+    for sb in se.live_blocks():
+        st = se.blocks[sb]["term"]
+        if st["k"] != "switch":
+            continue
+        src = paths.switch_source(se, st)
+        target = None
+        dp = flow.op_place(st["discr"])
+        if src is not None and src[0] == "discr" and val[0] == "variant":
+            r = flow.resolve_place(se, src[1]["ops"][0])
+            if r is None or r[0] != 2:
+                continue
+            vals = paths.discr_values(st, src[1])
+            for lab, tb in se.succ_edges(sb):
+                v = vals.get(lab)
+                if v == val[1] or (v and v.startswith("OTHER:") and val[1] in v[6:].split("|")):
+                    target = tb
+        elif val[0] == "int" and dp is not None:
+            r = flow.resolve_place(se, st["discr"])
+            if r is None or r[0] != 2 or r[1]:
+                continue
+            for lab, tb in se.succ_edges(sb):
+                if lab == val[1]:
+                    target = tb
+            if target is None:
+                target = st["otherwise"]
+        if target is None:
+            continue
+        reach = flow.reach(se, [target], stop_blocks=frozenset([sb]))
+        modes = {m for bi, m in setters.items() if bi in reach}
+        if len(modes) == 1:
+            out = modes.pop()
+    _DECL_CACHE[key] = out
+    return out
+
+
 def rule_r4(chk, db, model, impls):
     """keep-alive tables for CompleteMultipartUpload"""
     fns = impls.get("s3s::ops::generated::CompleteMultipartUpload")
@@ -392,17 +464,19 @@ def rule_r4(chk, db, model, impls):
                 chk.verdict("," in joins, "R4", "trailer-join", b.loc(bi), "trailer names are not joined with ','", nontrivial=False)
     if not found:
         chk.fail("R4", "trailer-list", call.loc(), "no `trailer` header declared for the keep-alive response")
-    # serialize_error(_, true) inside the deferred future, (_, false) elsewhere in the workspace
+    # the error renderer writes the document without an XML declaration exactly when it is called from the deferred future (whatever
+    # the type of the selecting parameter: the call's constant argument is evaluated against the renderer's own branch)
     n_true = 0
     for b, bi, t in db.callers_of("s3s::ops::serialize_error"):
-        flag = flow.const_of(b, t["args"][1])
-        v = flag.get("v") if flag else None
+        v = _error_decl_mode(db, b, t)
         in_keepalive = b in bodies and b.kind == "Closure" and any(callee_def(t2).endswith("::serialize_http") for _, t2 in b.calls())
         if in_keepalive:
             n_true += 1
-            chk.verdict(v == "1", "R4", "late-error-no-decl", b.loc(bi), "the late error of the keep-alive response must be rendered without a second XML declaration (no_decl=true)")
+            chk.verdict(v == "no_decl", "R4", "late-error-no-decl", b.loc(bi), "the late error of the keep-alive response must be rendered without a second XML declaration "
+                        "(the renderer is asked for: %s)" % v)
         else:
-            chk.verdict(v == "0", "R4", "error-decl@%s" % db.root_of(b).name.replace("s3s::ops::", ""), b.loc(bi), "serialize_error(no_decl=%s) outside the keep-alive future" % v, nontrivial=False)
+            chk.verdict(v == "decl", "R4", "error-decl@%s" % db.root_of(b).name.replace("s3s::ops::", ""), b.loc(bi),
+                        "an ordinary error response must start with the XML declaration (the renderer is asked for: %s)" % v, nontrivial=False)
     chk.floor("R4.late", n_true, 1, "late-error rendering sites in the keep-alive future")
     # set_keep_alive_xml_body: initial buffer derives only from Serializer::decl
     kb = db.body(SER + "set_keep_alive_xml_body")
